@@ -1,6 +1,6 @@
 (** Correspondence + spec search for the parameter / TCP-policy lab (C19, C20, part of C10). *)
 From Coq Require Import List ZArith Bool.
-From TR Require Import Lib.Sx Pol.Params Run.Eng.
+From TR Require Import Lib.Sx Lib.Bytes Pol.Params Run.Eng.
 Import ListNotations.
 Open Scope Z_scope.
 
@@ -149,7 +149,7 @@ Definition check_par (prop : Z) (inp impl : sx) : sx :=
       | _, _, _, _ => badcase
       end
   (* ---- real TCP runs against a loopback target *)
-  | L [A 12; A me; A capab], L [A status; A has_ns; A has_cause_i; A syn; A ackpsh; A accepted; L closes] =>
+  | L [A 12; A me; A capab], L [A status; A has_ns; A has_cause_i; A syn; A ackpsh; A accepted; L closes; A tuple_mismatch; A leaked] =>
       let m := d_method me in
       let fault := if capab <=? 1 then FNone else if capab =? 2 then FNoSackPermitted else if capab =? 3 then FAckWithoutSack
                    else if capab =? 4 then FDial injected else if capab =? 5 then FHandshakeNotCaptured else if capab =? 6 then FFilter injected
@@ -171,9 +171,13 @@ Definition check_par (prop : Z) (inp impl : sx) : sx :=
                     else []
                 | _ => []
                 end)
+        else if prop =? 12 then
+          (* the 4-tuple filter installed on a handle is the flow of the TCP probes written through that handle *)
+          (if tuple_mismatch =? 0 then [] else [6; 3])
         else if prop =? 10 then
           (* every handle the run opened is closed exactly once and not used afterwards; a failure yields an error, with its cause *)
           (if negb (forallb (fun s => match s with L [A 1; A 1; A 0] => true | _ => false end) closes) then [10; 1]
+           else if negb (leaked =? 0) then [10; 6]          (* a TCP connection the run dialled is still open after it returned *)
            else if (6 <=? capab) && (match m with MSyn => (7 <=? capab) | _ => true end) && negb ((status =? 1) && (has_cause_i =? 1)) then [10; 2]
            else [])
         else [] in
@@ -188,6 +192,17 @@ Definition check_par (prop : Z) (inp impl : sx) : sx :=
              && Bool.eqb (0 <? syn) ((fb_syn_calls r =? 1) && negb ((capab =? 7) && (match m with MSyn => true | _ => false end)))
              && (accepted =? (if (fb_sack_calls r =? 1) && negb (capab =? 4) then 1 else 0))
           then verdict V_OK cls [] (L []) else verdict V_DIVERGE cls [] (L [A merr; of_bool mns; of_bool mcause; A (fb_syn_calls r); A (fb_sack_calls r)])
+      end
+  (* ---- the endpoint an HTTP query's target text stands for (address, explicit port or the port parameter or the default)
+          is the endpoint the request would probe *)
+  | L [A 23; raw; want; A explicit; qport], L [A status; A estatus; got; A gport] =>
+      match sx_bytes want, sx_bytes got, opt_z qport with
+      | Some want, Some got, Some qp =>
+          let qd := q_int qp default_port in
+          let port := if 0 <=? explicit then explicit else if qd =? 0 then default_port else qd in
+          if (status =? 0) && (estatus =? 0) && list_eqb Z.eqb want got && (gport =? port) then verdict V_OK 7 [] (L [])
+          else if prop =? 19 then verdict V_SPECFAIL 7 [19; 11] (L [A port]) else verdict V_DIVERGE 7 [] (L [A port])
+      | _, _, _ => badcase
       end
   (* ---- which TCP method each run of a whole request is handed (RunTraceroute -> per-run seam) *)
   | L [A 22; A pr; A me; A q; A n], L [A status; L regs; L e2es] =>
